@@ -77,12 +77,14 @@ def _lean_check(case):
     class Ledger(Logger):
         def __init__(self):
             super().__init__()
-            self.cash, self.shares, self.n, self.sim, self.problems = {}, {}, 0, None, []
+            self.cash, self.shares, self.n, self.sim, self.problems, self.peak = {}, {}, 0, None, [], {}
 
         def process_execution_log(self, log):
             amount = Fraction(log.price) * log.volume
             self.cash[log.buy_agent_id] = self.cash.get(log.buy_agent_id, 0) - amount
             self.cash[log.sell_agent_id] = self.cash.get(log.sell_agent_id, 0) + amount
+            for a_ in (log.buy_agent_id, log.sell_agent_id):
+                self.peak[a_] = max(self.peak.get(a_, 1.0), abs(float(amount)), abs(float(self.init[a_][0] + self.cash[a_])))
             for a, sgn in ((log.buy_agent_id, 1), (log.sell_agent_id, -1)):
                 self.shares[(a, log.market_id)] = self.shares.get((a, log.market_id), 0) + sgn * log.volume
             self.n += 1
@@ -93,7 +95,7 @@ def _lean_check(case):
         def audit(self, where):
             for a in self.sim.agents:
                 want_c = self.init[a.agent_id][0] + self.cash.get(a.agent_id, 0)
-                if abs(Fraction(a.cash_amount) - want_c) > Fraction(1, 10**6) * max(1, abs(want_c)):
+                if abs(float(Fraction(a.cash_amount) - want_c)) > 1e-6 + 1e-9 * max(self.peak.get(a.agent_id, 1.0), abs(float(want_c))):
                     self.problems.append(f"{where}: agent {a.agent_id} has cash {a.cash_amount!r}, endowment + delivered fills = {float(want_c)!r} ({self.n} fills so far)")
                 for mid, v in a.asset_volumes.items():
                     want_s = self.init[a.agent_id][1][mid] + self.shares.get((a.agent_id, mid), 0)
